@@ -68,7 +68,7 @@ def Table.targetOk (g : Grammar) (t : Table) (st : State) (X s' : Nat) : Bool :=
     st'.items.all fun it =>
       it.dot == 0 || (g.rhsAt it.prod (it.dot - 1) == some X && st.hasItemB it.prod (it.dot - 1))
 
-def Cert.structural (g : Grammar) (t : Table) (start aug : Nat) : Bool :=
+def Cert.structural (g : Grammar) (t : Table) (start aug sym : Nat) : Bool :=
   -- item_prod
   (t.forStates fun _ st => st.items.all fun it =>
       match g.prods[it.prod]? with
@@ -90,7 +90,7 @@ def Cert.structural (g : Grammar) (t : Table) (start aug : Nat) : Bool :=
            | none => false)
         | .accept =>
           (match g.prods[aug]? with
-           | some pr => pr.rhs == [g.startIdx]
+           | some pr => pr.rhs == [sym]
            | none => false) && st.hasItemB aug 1) &&
   -- gotos: no_into_start, target_items (nonterminals)
   (t.forStates fun _ st => st.forGotos fun j s' => s' != start && t.targetOk g st (g.nterms + j) s')
@@ -105,5 +105,28 @@ def Cert.noShiftStop (t : Table) : Bool :=
     match a with
     | .shift _ => false
     | _ => true
+
+end Rustemo
+
+namespace Rustemo
+
+/-- goto is defined wherever a reduction can land, no reduction by an augmented production, every
+    state offers at least one token (so `error_expected` never sees an empty list), every shift /
+    goto target and the start state exist -/
+def Cert.total (g : Grammar) (t : Table) (start : Nat) : Bool :=
+  decide (start < t.states.size) &&
+  (t.forStates fun i st =>
+    !st.sorted.isEmpty &&
+    (st.items.all fun it =>
+      it.dot != 0 || g.isAug it.prod ||
+      (match g.prods[it.prod]? with
+       | some pr => (t.goto g i pr.lhs).isSome
+       | none => false)) &&
+    (st.forCells fun _ act =>
+      match act with
+      | .shift s' => decide (s' < t.states.size)
+      | .reduce p _ => !g.isAug p
+      | .accept => true) &&
+    (st.forGotos fun _ s' => decide (s' < t.states.size)))
 
 end Rustemo
